@@ -24,5 +24,5 @@ Input(e) == IF "segs" \in DOMAIN e THEN Expand(e.segs) ELSE e["in"]
 \* F(cond, prop, clause): the empty set when the clause holds, else one failure
 F(cond, prop, clause) == IF cond THEN {} ELSE {<<prop, clause>>}
 
-Report(l, row, fails) == \A f \in fails : PrintT(<<"BAD", l, row, f[1], f[2]>>)
+Report(l, row, fails) == \A f \in fails : PrintT(ToJson(<<"BAD", l, row, f[1], f[2]>>))
 =============================================================================
